@@ -12,7 +12,7 @@ from .mir import split_top
 from .types import (TInt, TBool, TStruct, TEnum, TVec, TOpaque, TCell, UNIT, BOOL, ORDERING, STRTOK, STRSLICE,
                     U64, USIZE, ISIZE, INTS)
 from .values import (Sc, St, En, Vc, Opq, UNITV, bv, fresh, default, leaves, vmap, ite, mk_variant, is_variant,
-                     payload, discr, simp, pair_leaves)
+                     payload, discr, simp, pair_leaves, substituter)
 
 
 class Unsupported(Exception):
@@ -196,6 +196,10 @@ def strip_ptr(t):
     return t
 
 
+def default_cap_of(tenv):
+    return tenv.default_cap
+
+
 class Engine:
     def __init__(self, bodies, consts, tenv, sources, feas_timeout_ms=300):
         self.bodies, self.consts, self.tenv, self.sources = bodies, consts, tenv, sources
@@ -218,7 +222,7 @@ class Engine:
         self.n_defs = 0
         self.derives = set()
         self.heap_n = 0
-        self.max_iter = 12
+        self.max_iter = max([default_cap_of(tenv)] + list(tenv.caps.values())) + 2
         self.rank_mode = False
         self.impls = {}
         self.closures = {}
@@ -353,6 +357,10 @@ class Engine:
             self.solver.add(self.defs[self.n_defs])
             self.n_defs += 1
 
+    def fact(self, c):
+        """a consequence of the value-model invariants (e.g. len <= structural bound): helps pruning only"""
+        self.assumptions.append(c)
+
     def feasible(self, cond):
         cond = z3.simplify(cond)
         if z3.is_true(cond):
@@ -483,7 +491,7 @@ class Engine:
             if step[0] == 's':
                 sl = list(v.slots)
                 sl[step[1]] = upd(sl[step[1]], path[1:])
-                return Vc(v.ty, v.len, sl)
+                return Vc(v.ty, v.len, sl, v.n)
             raise Unsupported('write projection %r' % (step,))
         st.env[r.root] = upd(st.env.get(r.root), r.path)
 
@@ -1114,7 +1122,7 @@ class Engine:
             if isinstance(a, Ref):
                 a = self.read_ref(st, a)
             pair_leaves(f, a, pairs)
-        sub = (lambda t: z3.substitute(t, *pairs)) if pairs else (lambda t: t)
+        sub = substituter(pairs)
         for kind, w, c in sm.sink.panics:
             self.panic(kind, w, AND(st.pc, sub(c)))
         for w, c in sm.sink.bexc:
